@@ -57,10 +57,8 @@ Record case := {
   c_ident : list (Z * Z);            (* returned key -> atom id (found by the harness from the neighbourhoods; CHECKED below) *)
   c_chiral : list (Z * pystr);       (* atom id -> label as written *)
   c_rel : list (Z * Z * Z * Z * bool);  (* reference relations (l1, a1, a2, l2, cis) in atom ids *)
-  c_wb : list (Z * Z * bool * bool);    (* marked (ligand id, anchor id): ligand WRITTEN before its anchor;
+  c_wb : list (Z * Z * bool * bool)     (* marked (ligand id, anchor id): ligand WRITTEN before its anchor;
                                            ligand cut off from its anchor (mark written at both ends of the cut) *)
-  c_lone : list Z                       (* atom ids that are a fragment of ONE atom at read time (a bracket atom
-                                           written without hydrogens, e.g. `[C;x=S][$a]/[$b]`) *)
 }.
 
 Definition corr_ok (c : case) : bool :=
@@ -187,21 +185,8 @@ Definition conflict_class (c : case) : bool :=
   | None => false
   end.
 
-(** read_fragment_smiles returns early for a fragment that has ONE atom when pysmiles has read it, before
-    'ez_isomer_class' is stored: a marked substituent that is such a fragment arrives WITHOUT its mark *)
-Definition has_class_attr (g : graph) (k : Z) : bool :=
-  match node_get g k (S "ez_isomer_class") with Some _ => true | None => false end.
-Definition lone_class (c : case) : bool :=
-  match c_before c with
-  | Some g =>
-      existsb (fun e => let '(l, _, _, cut) := e in
-                 cut && existsb (Z.eqb l) (c_lone c)
-                 && existsb (fun kv => Z.eqb (snd kv) l && negb (has_class_attr g (fst kv))) (c_ident c)) (c_wb c)
-  | None => false
-  end.
-
 (** 0 = all clauses hold; otherwise the number of the first failing clause
-    (14, 15, 16, 17: the failure lies inside a known defect class, see above) *)
+    (14, 15, 16: the failure lies inside a known defect class, see above) *)
 Definition prop_fail (c : case) : nat :=
   if negb (c_judged c) then 0%nat else
   match c_ret c with
@@ -212,6 +197,6 @@ Definition prop_fail (c : case) : nat :=
       else if negb (chiral_ok c g) then 3%nat
       else if rel_contradiction (rel_got c g) (rel_want c) then
              match case_class_code c with 0%nat => 4%nat | n => n end
-      else if negb (rel_same_support (rel_got c g) (rel_want c)) then (if lone_class c then 17%nat else 5%nat)
+      else if negb (rel_same_support (rel_got c g) (rel_want c)) then 5%nat
       else 0%nat
   end.
